@@ -101,8 +101,9 @@ def build_block(src, selector, rx, opts, sections, emitter):
     raw = src.text[bstart:bend]
     first_line = line_of(src.text, bstart)
     sha = hashlib.sha256(raw.encode()).hexdigest()
-    text = X.strip_attrs_and_docs(raw)
-    applied = []
+    raw_cb, cb_applied = X.apply_callblocks(src, selector, bstart, bend, raw, sections, emitter)
+    text = X.strip_attrs_and_docs(raw_cb)
+    applied = list(cb_applied)
     for r in X.ALWAYS:
         text = r(text, applied)
     for rn in opts.get("rules", []):
